@@ -75,11 +75,6 @@ func listLit(items ...string) string {
 	return "[" + strings.Join(qs, ", ") + "]"
 }
 
-const goneExpr = `try(func() {
-  os.stat(%s)
-  return "still"
-}, "gone")`
-
 // variants builds every call template for spelling k.
 func variants(k int) []variant {
 	var out []variant
@@ -104,14 +99,14 @@ func variants(k int) []variant {
 	add("os.args", "-", "", "os.args()", listLit("VERIFMARK_arg0", "VERIFMARK_arg1"), L("Args()"))
 	for _, t := range []struct{ fn, call string }{{"os.chdir", "os.chdir"}, {"builtin.cd", "cd"}} {
 		for _, p := range []pc{{"absdir", dirD, ""}, {"reldir", relD, ""}} {
-			add(t.fn, p.id, t.call+"("+q(p.p)+")", "os.getwd()", p.p, L(fmt.Sprintf("Chdir(%q)", p.p), "Getwd()"), "cwd:"+p.p)
+			add(t.fn, p.id, t.call+"("+q(p.p)+")", `"done"`, "done", L(fmt.Sprintf("Chdir(%q)", p.p)), "cwd:"+p.p)
 		}
 	}
 	for _, p := range []pc{{"newabs", newAbs, ""}, {"newrel", newRel, ""}, {"existing", fileA, ""}} {
 		a := absOf(p.p)
 		add("os.create", p.id, fmt.Sprintf("f := os.create(%s)\nf.write(\"created-VERIFMARK\")\nf.close()", q(p.p)),
-			"string(os.read_file("+q(p.p)+"))", "created-VERIFMARK",
-			L(fmt.Sprintf("Create(%q)", p.p), fmt.Sprintf("File.Write(%s,%q)", a, "created-VERIFMARK"), "File.Close("+a+")", fmt.Sprintf("ReadFile(%q)", p.p)),
+			`"done"`, "done",
+			L(fmt.Sprintf("Create(%q)", p.p), fmt.Sprintf("File.Write(%s,%q)", a, "created-VERIFMARK"), "File.Close("+a+")"),
 			"file:"+a+"=created-VERIFMARK")
 	}
 	add("os.current_user", "-", "u := os.current_user()", `[u["uid"], u["gid"], u["username"], u["name"], u["home_dir"]]`,
@@ -143,16 +138,16 @@ func variants(k int) []variant {
 	add("os.lookup_user", "known", "u := os.lookup_user("+q(vUser)+")", usr, listLit("777", vUser, vHome), L(fmt.Sprintf("LookupUser(%q)", vUser)))
 	add("os.lookup_user", "realonly", `u := os.lookup_user("root")`, usr, "ERR", L(`LookupUser("root")`))
 	for _, p := range []pc{{"newtop-nested", sp("/VERIFMARK_newtop/x/y"), ""}, {"newrel-nested", sp("VERIFMARK_newreldir/z"), ""}} {
-		add("os.mkdir_all", p.id, "os.mkdir_all("+q(p.p)+")", "os.stat("+q(p.p)+").is_dir", "true",
-			L(fmt.Sprintf("MkdirAll(%q,755)", p.p), fmt.Sprintf("Stat(%q)", p.p)), "dir:"+absOf(p.p))
+		add("os.mkdir_all", p.id, "os.mkdir_all("+q(p.p)+")", `"made"`, "made",
+			L(fmt.Sprintf("MkdirAll(%q,755)", p.p)), "dir:"+absOf(p.p))
 	}
-	add("os.mkdir_all", "perm", "os.mkdir_all("+q(newTop)+", 448)", "os.stat("+q(newTop)+").is_dir", "true",
+	add("os.mkdir_all", "perm", "os.mkdir_all("+q(newTop)+", 448)", `"made"`, "made",
 		L(fmt.Sprintf("MkdirAll(%q,700)", newTop)), "dir:"+absOf(newTop))
 	add("os.mkdir_temp", "pattern", "", `os.mkdir_temp("", "VERIFMARK_pat")`, `re:^/VERIFMARK_tmp/\d+-VERIFMARK_pat$`, L(`MkdirTemp("","VERIFMARK_pat")`))
 	add("os.mkdir_temp", "dir", "", "os.mkdir_temp("+q(dirD)+`, "VERIFMARK_pat")`, "ERR", L(fmt.Sprintf("MkdirTemp(%q,%q)", dirD, "VERIFMARK_pat")))
 	for _, p := range []pc{{"newtop", newTop, ""}, {"newrel", newRelDir, ""}, {"newsub", newSub, ""}} {
-		add("os.mkdir", p.id, "os.mkdir("+q(p.p)+")", "os.stat("+q(p.p)+").is_dir", "true",
-			L(fmt.Sprintf("Mkdir(%q,755)", p.p), fmt.Sprintf("Stat(%q)", p.p)), "dir:"+absOf(p.p))
+		add("os.mkdir", p.id, "os.mkdir("+q(p.p)+")", `"made"`, "made",
+			L(fmt.Sprintf("Mkdir(%q,755)", p.p)), "dir:"+absOf(p.p))
 	}
 	add("os.mkdir", "perm", "os.mkdir("+q(newTop)+", 448)", `"made"`, "made", L(fmt.Sprintf("Mkdir(%q,700)", newTop)), "dir:"+absOf(newTop))
 	add("os.mkdir", "exists", "os.mkdir("+q(dirD)+")", `"made"`, "ERR", L(fmt.Sprintf("Mkdir(%q,755)", dirD)))
@@ -178,28 +173,28 @@ func variants(k int) []variant {
 	}
 	add("os.read_file", "missing", "", "string(os.read_file("+q(missing)+"))", "ERR", L(fmt.Sprintf("ReadFile(%q)", missing)))
 	for _, p := range readable {
-		add("os.remove", p.id, "os.remove("+q(p.p)+")", fmt.Sprintf(goneExpr, q(p.p)), "gone",
-			L(fmt.Sprintf("Remove(%q)", p.p), fmt.Sprintf("Stat(%q)", p.p)), "nofile:"+absOf(p.p))
+		add("os.remove", p.id, "os.remove("+q(p.p)+")", `"removed"`, "removed",
+			L(fmt.Sprintf("Remove(%q)", p.p)), "nofile:"+absOf(p.p))
 	}
 	add("os.remove", "missing", "os.remove("+q(missing)+")", `"removed"`, "ERR", L(fmt.Sprintf("Remove(%q)", missing)))
-	add("os.remove_all", "absdir", "os.remove_all("+q(dirD)+")", fmt.Sprintf(goneExpr, q(fileA)), "gone",
+	add("os.remove_all", "absdir", "os.remove_all("+q(dirD)+")", `"removed"`, "removed",
 		L(fmt.Sprintf("RemoveAll(%q)", dirD)), "nofile:/VERIFMARK_dir/a.txt", "nofile:/VERIFMARK_dir/sub/b.txt", "nofile:/VERIFMARK_dir")
-	add("os.remove_all", "reldir", "os.remove_all("+q(relD)+")", fmt.Sprintf(goneExpr, q(relD)), "gone",
+	add("os.remove_all", "reldir", "os.remove_all("+q(relD)+")", `"removed"`, "removed",
 		L(fmt.Sprintf("RemoveAll(%q)", relD)), "nofile:/VERIFMARK_cwd/VERIFMARK_reldir/c.txt", "nofile:/VERIFMARK_cwd/VERIFMARK_reldir")
-	add("os.rename", "abs", "os.rename("+q(fileA)+", "+q(newAbs)+")", "string(os.read_file("+q(newAbs)+"))", cA,
+	add("os.rename", "abs", "os.rename("+q(fileA)+", "+q(newAbs)+")", `"renamed"`, "renamed",
 		L(fmt.Sprintf("Rename(%q,%q)", fileA, newAbs)), "file:"+absOf(newAbs)+"="+cA, "nofile:"+absOf(fileA))
-	add("os.rename", "rel", "os.rename("+q(relF)+", "+q(newRel)+")", "string(os.read_file("+q(newRel)+"))", cRel,
+	add("os.rename", "rel", "os.rename("+q(relF)+", "+q(newRel)+")", `"renamed"`, "renamed",
 		L(fmt.Sprintf("Rename(%q,%q)", relF, newRel)), "file:"+absOf(newRel)+"="+cRel, "nofile:"+absOf(relF))
 	add("os.rename", "missing", "os.rename("+q(missing)+", "+q(newAbs)+")", `"renamed"`, "ERR", L(fmt.Sprintf("Rename(%q,%q)", missing, newAbs)), "nofile:"+absOf(newAbs))
 	for _, t := range []struct{ fn, call string }{{"os.setenv", "os.setenv"}, {"builtin.setenv", "setenv"}} {
-		add(t.fn, "new", t.call+`("VERIFMARK_NEWVAR", "v-VERIFMARK")`, `os.getenv("VERIFMARK_NEWVAR")`, "v-VERIFMARK",
-			L(`Setenv("VERIFMARK_NEWVAR","v-VERIFMARK")`, `Getenv("VERIFMARK_NEWVAR")`), "env:VERIFMARK_NEWVAR=v-VERIFMARK")
-		add(t.fn, "overwrite", t.call+"("+q(vEnvName)+`, "changed-VERIFMARK")`, "os.getenv("+q(vEnvName)+")", "changed-VERIFMARK",
+		add(t.fn, "new", t.call+`("VERIFMARK_NEWVAR", "v-VERIFMARK")`, `"set"`, "set",
+			L(`Setenv("VERIFMARK_NEWVAR","v-VERIFMARK")`), "env:VERIFMARK_NEWVAR=v-VERIFMARK")
+		add(t.fn, "overwrite", t.call+"("+q(vEnvName)+`, "changed-VERIFMARK")`, `"set"`, "set",
 			L(fmt.Sprintf("Setenv(%q,%q)", vEnvName, "changed-VERIFMARK")), "env:"+vEnvName+"=changed-VERIFMARK")
 	}
 	for _, t := range []struct{ fn, call string }{{"os.unsetenv", "os.unsetenv"}, {"builtin.unsetenv", "unsetenv"}} {
-		add(t.fn, "set", t.call+"("+q(vEnvName)+")", "sorted(os.environ())", "[]", L(fmt.Sprintf("Unsetenv(%q)", vEnvName), "Environ()"), "noenv:"+vEnvName)
-		add(t.fn, "unset", t.call+`("VERIFMARK_UNSET")`, "sorted(os.environ())", listLit(vEnvName+"="+vEnvValue), L(`Unsetenv("VERIFMARK_UNSET")`), "env:"+vEnvName+"="+vEnvValue)
+		add(t.fn, "set", t.call+"("+q(vEnvName)+")", `"unset"`, "unset", L(fmt.Sprintf("Unsetenv(%q)", vEnvName)), "noenv:"+vEnvName)
+		add(t.fn, "unset", t.call+`("VERIFMARK_UNSET")`, `"unset"`, "unset", L(`Unsetenv("VERIFMARK_UNSET")`), "env:"+vEnvName+"="+vEnvValue)
 	}
 	info := "[i.name, i.size, i.is_dir]"
 	add("os.stat", "absfile", "i := os.stat("+q(fileA)+")", info, fmt.Sprintf(`["a.txt", %d, false]`, len(cA)), L(fmt.Sprintf("Stat(%q)", fileA)))
@@ -207,17 +202,17 @@ func variants(k int) []variant {
 	add("os.stat", "absdir", "i := os.stat("+q(dirD)+")", info, `["VERIFMARK_dir", 0, true]`, L(fmt.Sprintf("Stat(%q)", dirD)))
 	add("os.stat", "missing", "i := os.stat("+q(missing)+")", info, "ERR", L(fmt.Sprintf("Stat(%q)", missing)))
 	lnkA, lnkR := sp("/VERIFMARK_dir/VERIFMARK_link"), sp("VERIFMARK_rellink")
-	add("os.symlink", "abs", "os.symlink("+q(fileA)+", "+q(lnkA)+")", "string(os.read_file("+q(lnkA)+"))", cA, L(fmt.Sprintf("Symlink(%q,%q)", fileA, lnkA), fmt.Sprintf("ReadFile(%q)", lnkA)))
-	add("os.symlink", "rel", "os.symlink("+q(relF)+", "+q(lnkR)+")", "string(os.read_file("+q(lnkR)+"))", cRel, L(fmt.Sprintf("Symlink(%q,%q)", relF, lnkR), fmt.Sprintf("ReadFile(%q)", lnkR)))
+	add("os.symlink", "abs", "os.symlink("+q(fileA)+", "+q(lnkA)+")", `"linked"`, "linked", L(fmt.Sprintf("Symlink(%q,%q)", fileA, lnkA)), "file:"+absOf(lnkA)+"="+cA)
+	add("os.symlink", "rel", "os.symlink("+q(relF)+", "+q(lnkR)+")", `"linked"`, "linked", L(fmt.Sprintf("Symlink(%q,%q)", relF, lnkR)), "file:"+absOf(lnkR)+"="+cRel)
 	add("os.temp_dir", "-", "", "os.temp_dir()", vTmp, L("TempDir()"))
 	add("os.user_cache_dir", "-", "", "os.user_cache_dir()", vCache, L("UserCacheDir()"))
 	add("os.user_config_dir", "-", "", "os.user_config_dir()", vConfig, L("UserConfigDir()"))
 	add("os.user_home_dir", "-", "", "os.user_home_dir()", vHome, L("UserHomeDir()"))
-	add("os.write_file", "newabs-string", "os.write_file("+q(newAbs)+`, "w-VERIFMARK")`, "string(os.read_file("+q(newAbs)+"))", "w-VERIFMARK",
-		L(fmt.Sprintf("WriteFile(%q,%q,644)", newAbs, "w-VERIFMARK"), fmt.Sprintf("ReadFile(%q)", newAbs)), "file:"+absOf(newAbs)+"=w-VERIFMARK")
-	add("os.write_file", "newrel-bytes", "os.write_file("+q(newRel)+`, byte_slice("wb-VERIFMARK"))`, "string(os.read_file("+q(newRel)+"))", "wb-VERIFMARK",
+	add("os.write_file", "newabs-string", "os.write_file("+q(newAbs)+`, "w-VERIFMARK")`, `"written"`, "written",
+		L(fmt.Sprintf("WriteFile(%q,%q,644)", newAbs, "w-VERIFMARK")), "file:"+absOf(newAbs)+"=w-VERIFMARK")
+	add("os.write_file", "newrel-bytes", "os.write_file("+q(newRel)+`, byte_slice("wb-VERIFMARK"))`, `"written"`, "written",
 		L(fmt.Sprintf("WriteFile(%q,%q,644)", newRel, "wb-VERIFMARK")), "file:"+absOf(newRel)+"=wb-VERIFMARK")
-	add("os.write_file", "overwrite-perm", "os.write_file("+q(fileA)+`, "ow-VERIFMARK", 384)`, "string(os.read_file("+q(fileA)+"))", "ow-VERIFMARK",
+	add("os.write_file", "overwrite-perm", "os.write_file("+q(fileA)+`, "ow-VERIFMARK", 384)`, `"written"`, "written",
 		L(fmt.Sprintf("WriteFile(%q,%q,600)", fileA, "ow-VERIFMARK")), "file:"+absOf(fileA)+"=ow-VERIFMARK")
 	noParent := sp("/VERIFMARK_nodir/x.txt")
 	add("os.write_file", "noparent", "os.write_file("+q(noParent)+`, "x")`, `"written"`, "ERR", L(fmt.Sprintf("WriteFile(%q,%q,644)", noParent, "x")), "nofile:"+absOf(noParent))
@@ -229,9 +224,9 @@ func variants(k int) []variant {
 	add("builtin.cat", "abs", "", "cat("+q(fileA)+")", cA, L(fmt.Sprintf("ReadFile(%q)", fileA)))
 	add("builtin.cat", "abs+rel", "", "cat("+q(fileA)+", "+q(relF)+")", cA+cRel, L(fmt.Sprintf("ReadFile(%q)", fileA), fmt.Sprintf("ReadFile(%q)", relF)))
 	add("builtin.cat", "missing", "", "cat("+q(missing)+")", "ERR", L(fmt.Sprintf("ReadFile(%q)", missing)))
-	add("builtin.cp", "abs", "cp("+q(fileA)+", "+q(newAbs)+")", "cat("+q(newAbs)+")", cA,
+	add("builtin.cp", "abs", "cp("+q(fileA)+", "+q(newAbs)+")", `"copied"`, "copied",
 		L(fmt.Sprintf("ReadFile(%q)", fileA), fmt.Sprintf("WriteFile(%q,%q,644)", newAbs, cA)), "file:"+absOf(newAbs)+"="+cA)
-	add("builtin.cp", "rel", "cp("+q(relF)+", "+q(newRel)+")", "cat("+q(newRel)+")", cRel,
+	add("builtin.cp", "rel", "cp("+q(relF)+", "+q(newRel)+")", `"copied"`, "copied",
 		L(fmt.Sprintf("ReadFile(%q)", relF), fmt.Sprintf("WriteFile(%q,%q,644)", newRel, cRel)), "file:"+absOf(newRel)+"="+cRel)
 	add("builtin.cp", "missing", "cp("+q(missing)+", "+q(newAbs)+")", `"copied"`, "ERR", L(fmt.Sprintf("ReadFile(%q)", missing)), "nofile:"+absOf(newAbs))
 
